@@ -765,7 +765,12 @@ fn server_source(rng: &mut Rng, plugin: bool, mode: Mode) -> String {
 
 // ------------------------------------------------------------------ main
 
+/// the guard `plain` of coq/C16/Model.v (statistics only)
+fn is_plain(x: &str) -> bool {
+    if x.contains('\n') { !x.contains("\"\"\"") && !x.ends_with('"') && !x.ends_with('\\') } else { !x.contains('"') && !x.contains('\\') }
+}
 fn str_case(out: &mut Out, x: &str) {
+    out.bump(if is_plain(x) { "strings:plain (theorem applies)" } else { "strings:not plain" });
     let mut b = String::new();
     { let mut w = JustWriter::new(&mut b); print_string(x, &mut w); }
     out.distinct.insert(format!("str|{x}"));
